@@ -16,7 +16,7 @@ func (c01) Cases(c *Ctx) int { return c.Pick(1500, 40000) }
 
 func progCfgFull(c *Ctx) ProgCfg {
 	return ProgCfg{
-		Gen:      GenCfg{Depth: c.Pick(2, 3), RejectHeavy: true, SmallInts: true, Custom: true, CustomStmts: true, LenCap: 8, PredSignals: true},
+		Gen:      GenCfg{Depth: c.Pick(2, 3), RejectHeavy: true, SmallInts: true, Custom: true, CustomStmts: true, LenCap: 8, PredSignals: true, MakeFlat: true},
 		MaxStmts: c.Pick(5, 7), Repeat: true, Cleanups: true, Go: true, Skips: true, SigPct: 85,
 	}
 }
